@@ -587,6 +587,20 @@ def deepKey (name : Str) (k : Str) : Option (List Str) :=
     | segs => some segs
   else none
 
+/-- the text of the bracket groups `[s1][s2]…` -/
+def brackets : List Str → Str
+  | [] => []
+  | s :: rest => '[' :: s ++ ']' :: brackets rest
+
+/-- a query key that the deepObject branch takes for `name` (prefix `name[`, at least one group) is *well formed* when it
+is exactly `name[s1]…[sn]`. The code only collects the groups, so `p[a]zz`, `p[a][`, `p[a]x[b]` are read as `p[a]`,
+`p[a]`, `p[a][b]` — and collide with the real key in a Go map whose iteration order decides (finding F-C05-7). Keys that
+do not belong to the parameter at all count as well formed (nothing to object to). -/
+def wellFormedKey (name k : Str) : Bool :=
+  match deepKey name k with
+  | some segs => k == name ++ brackets segs
+  | none => true
+
 /-- props of the deepObject branch: (segments, values) per matching key -/
 def deepProps (name : Str) : List (Str × List Str) → List (List Str × List Str)
   | [] => []
@@ -838,6 +852,10 @@ def cookieObj (prim : PT → Str → PR) (explodeBad : Bool) (st : Sty) (ex : Bo
   | none => absentObj
   | some raw => objOut prim true raw [','] [','] sprops addl
 
+/-- the specification's view of a deepObject request: keys with text outside the bracket groups are not keys of this
+parameter (they are other parameters' names) -/
+def strictReq (name : Str) (r : Req) : Req := { r with query := r.query.filter (fun kv => wellFormedKey name kv.1) }
+
 /-! ## decodeStyledParameter / decodeValue -/
 
 /-- parameters of the decoder that differ between the code (`impl`) and the specification (`spec`) -/
@@ -846,9 +864,12 @@ structure Flavour where
   cookieExplodeBad : Bool
   absentAware : Bool
   presenceAware : Bool
+  strictDeepKeys : Bool
 
-def impl : Flavour := ⟨parsePrim, true, false, false⟩
-def spec : Flavour := ⟨specPrim, false, true, true⟩
+def impl : Flavour := ⟨parsePrim, true, false, false, false⟩
+def spec : Flavour := ⟨specPrim, false, true, true, true⟩
+
+def Flavour.deepReq (fl : Flavour) (name : Str) (r : Req) : Req := if fl.strictDeepKeys then strictReq name r else r
 
 def decodeLeaf (fl : Flavour) (c : Cell) (name : Str) (r : Req) : Leaf → Out
   | .prim ps => match c.loc with
@@ -865,13 +886,13 @@ def decodeLeaf (fl : Flavour) (c : Cell) (name : Str) (r : Req) : Leaf → Out
     | .path => pathObj fl.prim name c.style c.explode r sprops addl
     | .query => if c.style = .deepObject then
                   (match addl with
-                   | none => queryDeepFlat fl.prim name r sprops
-                   | some a => queryDeepFlatA fl.prim fl.presenceAware name r sprops a)
+                   | none => queryDeepFlat fl.prim name (fl.deepReq name r) sprops
+                   | some a => queryDeepFlatA fl.prim fl.presenceAware name (fl.deepReq name r) sprops a)
                 else queryObj fl.prim fl.absentAware fl.presenceAware name c.style c.explode r sprops addl
     | .header => headerObj fl.prim c.style c.explode r sprops addl
     | .cookie => cookieObj fl.prim fl.cookieExplodeBad c.style c.explode r sprops addl
   | .deep sprops _ => match c.loc, c.style with
-    | .query, .deepObject => queryDeep fl.prim name r sprops
+    | .query, .deepObject => queryDeep fl.prim name (fl.deepReq name r) sprops
     | .query, .form => queryObj fl.prim fl.absentAware fl.presenceAware name c.style c.explode r [] none   -- never generated
     | .query, _ => badMethodObj
     | .path, _ => pathObj fl.prim name c.style c.explode r [] none
@@ -1039,6 +1060,10 @@ def visitLeaf (hit arrEq : EV → PV → Bool) : Leaf → Val → Bool
     kvs.all (fun kv => match sprops.lookup kv.1 with
       | some ds => visitDS hit ds kv.2
       | none => true)
+  -- a typed-nil map (`map[string]any(nil)` inside the interface) is validated as the empty object: visitJSON's type
+  -- switch sends it to visitJSONObject (ValidateParameter never gets here: isNilValue; validateResponseHeader does)
+  | .obj _ req _, .nilObj => req.isEmpty
+  | .deep _ req, .nilObj => req.isEmpty
   | .obj _ req _, .dobj kvs => req.isEmpty && kvs.isEmpty   -- only the empty map crosses (never generated otherwise)
   | .deep _ req, .obj kvs => req.isEmpty && kvs.isEmpty
   | _, _ => false
@@ -1087,6 +1112,26 @@ def validateParameter (p : Param) (r : Req) : Verdict :=
 /-- the same decision over the specification's decoder and JSON equality for enums -/
 def validateSpec (p : Param) (r : Req) : Verdict :=
   decide' (visitSch enumHitSpec enumHitSpec) p (decodeStyled spec p.cell p.name p.required r p.schema)
+
+/-! ## validateResponseHeader: the same decoder behind another decision -/
+
+/-- validate_response.go validateResponseHeader for a header described by `schema` (Header.SerializationMethod: style
+simple unless given, explode false unless given): decodeValue over headerParamDecoder — no early exits —, then
+`found` → VisitJSON of the decoded value *whatever it is* (an empty header value decodes to nil and is validated as
+null; an empty value list gives a typed-nil map, validated as {}), not found → missing iff required. -/
+def validateRespHeader (fl : Flavour) (visit : Sch → Val → Bool) (name : Str) (st : Sty) (ex required : Bool) (r : Req) (s : Sch) : Verdict :=
+  let o := decodeValue fl ⟨.header, st, ex⟩ name required r s
+  match o.err with
+  | some e => errVerdict e
+  | none =>
+    if o.found then (if visit s o.val then .accept else .schema)
+    else if required then .missing else .accept
+
+def respHeaderImpl (name : Str) (st : Sty) (ex required : Bool) (r : Req) (s : Sch) : Verdict :=
+  validateRespHeader impl (visitSch enumHitImpl deepEqImpl) name st ex required r s
+
+def respHeaderSpec (name : Str) (st : Sty) (ex required : Bool) (r : Req) (s : Sch) : Verdict :=
+  validateRespHeader spec (visitSch enumHitSpec enumHitSpec) name st ex required r s
 
 /-! ## the specification's encoder (OpenAPI 3.0.3 §4.7.12.2 style table) -/
 
@@ -1244,6 +1289,10 @@ def leafNoProps : Leaf → Bool
 
 def QueryObjNoProps (p : Param) : Bool :=
   p.cell.loc = .query && (schLeaves p.schema).any leafNoProps
+
+/-- F-C05-7: a deepObject parameter and a query key `name[…` with text outside its bracket groups -/
+def DeepKeyJunk (p : Param) (r : Req) : Bool :=
+  p.cell.loc = .query && p.cell.style = .deepObject && r.query.any (fun kv => !wellFormedKey p.name kv.1)
 
 /-! ## Encodable: the injectivity domain of the specification's encoding -/
 
